@@ -52,12 +52,23 @@ template<typename W> struct Model {
   }
 };
 
+// raw-bytes keys are handed over at rotating addresses (offsets 0..7 from an 8-byte aligned buffer): the cells a key maps to
+// must not depend on where its bytes happen to live
+static const void* at_offset(const std::string& bytes, unsigned off) {
+  static thread_local std::vector<uint64_t> buf;
+  buf.assign((bytes.size() + 8) / 8 + 2, 0);
+  char* p = reinterpret_cast<char*>(buf.data()) + (off & 7);
+  if (!bytes.empty()) memcpy(p, bytes.data(), bytes.size());
+  return p;
+}
+static unsigned g_addr_rot = 0;
+
 template<typename W> static void sk_update(count_min_sketch<W>& s, const Item& it, W w) {
   switch (it.kind) {
     case 0: s.update(static_cast<uint64_t>(it.u), w); break;
     case 1: s.update(static_cast<int64_t>(it.u), w); break;
     case 2: s.update(it.s, w); break;
-    default: s.update(static_cast<const void*>(it.s.data()), it.s.size(), w); break;
+    default: { const unsigned off = g_addr_rot++; if (off & 7) count("bytes_key_updates_from_unaligned_address"); s.update(at_offset(it.s, off), it.s.size(), w); break; }
   }
 }
 template<typename W> static void sk_query(const count_min_sketch<W>& s, const Item& it, W& est, W& lb, W& ub) {
@@ -65,7 +76,7 @@ template<typename W> static void sk_query(const count_min_sketch<W>& s, const It
     case 0: est = s.get_estimate(static_cast<uint64_t>(it.u)); lb = s.get_lower_bound(static_cast<uint64_t>(it.u)); ub = s.get_upper_bound(static_cast<uint64_t>(it.u)); break;
     case 1: est = s.get_estimate(static_cast<int64_t>(it.u)); lb = s.get_lower_bound(static_cast<int64_t>(it.u)); ub = s.get_upper_bound(static_cast<int64_t>(it.u)); break;
     case 2: est = s.get_estimate(it.s); lb = s.get_lower_bound(it.s); ub = s.get_upper_bound(it.s); break;
-    default: est = s.get_estimate(it.s.data(), it.s.size()); lb = s.get_lower_bound(it.s.data(), it.s.size()); ub = s.get_upper_bound(it.s.data(), it.s.size()); break;
+    default: { const void* p = at_offset(it.s, g_addr_rot++ * 3); est = s.get_estimate(p, it.s.size()); lb = s.get_lower_bound(p, it.s.size()); ub = s.get_upper_bound(p, it.s.size()); break; }
   }
 }
 
